@@ -21,7 +21,7 @@ func init() {
 		Rule: "case = one pair of valid polygonal operands in general position (operands with more than one ring are additionally presented as ONE polygon holding all rings in random order - a hole may precede its shell, as in the library's own Difference/Union results - half of those laid out as consecutive sub-slices of one backing array, and as a MultiPolygon whose members hold their rings in random order, sometimes with an empty member; star rings of 3-60 vertices (300 thorough) with 0-3 holes, rotated comb and staircase rings, multi-polygons of 2-4 disjoint members, boxes; configurations: operands differing in size by 10^3..10^6.3 (a triangle inside / in a hole of / next to a large shape), overlapping, B inside A, B inside a hole of A, A inside B, disjoint with overlapping bounding boxes, bounding-box-disjoint on one or both axes; random ring orientation/start/closure) run through all four operations plus the reverse difference for every receiver/argument presentation {Polygon, MultiPolygon, *Bounds}^2 the shapes admit; " +
 			"each result is judged at <= 96 margin points by the harness's exact even-odd membership (A, B and result rings), by the inclusion-exclusion area identities (exact Operand areas, nesting-parity area of the result rings), ring closure and the empty-result rule; " +
 			"phase huge_box: an ordinary operand and a box with 1-3 sides 1e11..1e300 away whose near sides cut through it, areas of Intersection / Difference against a Sutherland-Hodgman reference, all violations under one key (recorded defect of the external clipper); an evaluation is one operation result judged; non-trivial = Operand pair whose true intersection and both differences each contain a margin point (distinct by Operand hash)",
-		Assumptions: []string{"operands validated by the harness: simple rings, holes inside shells, no vertex of one Operand within 1e-7*diameter of an edge of the other (general position with a margin) - except in the phase near_coincident, which drops the margin (only exact incidences rejected) and, like the phases tiny_magnitude (coordinates 1e-13..3e-7) and huge_magnitude (1e154..1e160), reports everything under one key: they exhibit defects of the external clipper listed in known_findings.json", "phase far_from_origin (figures 1e5..1e9 times their size away from the origin) judges membership only, at points 1e-5*diameter clear of the input edges: result vertices are rounded to the float64 spacing at the offset", "test points keep 1e-7*diameter clear of every input edge", "Polygonal.Area() of a result is compared only when its rings do not touch each other (geom documents hole detection as undefined there)"},
+		Assumptions: []string{"operands validated by the harness: simple rings, holes inside shells, no vertex of one Operand within 1e-7*diameter of an edge of the other (general position with a margin) - except in the phase near_coincident, which drops the margin (only exact incidences rejected) and, like the phases tiny_magnitude (coordinates 1e-13..3e-7) and huge_magnitude (1e154..1e160), reports everything under one key: they exhibit defects of the external clipper listed in known_findings.json", "phase far_from_origin (figures 1e5..1e9 times their size away from the origin; from 1e8 on its violations go under one key, a recorded finding) judges membership only, at points 1e-5*diameter clear of the input edges: result vertices are rounded to the float64 spacing at the offset", "test points keep 1e-7*diameter clear of every input edge", "Polygonal.Area() of a result is compared only when its rings do not touch each other (geom documents hole detection as undefined there)"},
 		Phases: []core.Phase{{Name: "ops", NumCases: func(t string) int {
 			if t == "thorough" {
 				return 120000
@@ -427,10 +427,12 @@ func run(c *core.Ctx, idx int) {
 		c.Count("scale.1e154..1e160")
 	}
 	ox, oy := r.Range(-5, 5)*scale, r.Range(-5, 5)*scale
+	farRatio := 0.0
 	if c.Phase == "far_from_origin" {
 		// figures 1e5 .. 1e9 times their own size away from the origin (a parcel in projected
 		// coordinates is 1e5..1e7 away): the coordinates keep 7 to 11 significant digits of the shape
 		f := math.Pow(10, r.Range(5, 9))
+		farRatio = f
 		ox, oy = f*scale*float64(1-2*r.Intn(2)), f*scale*r.Range(-1, 1)
 		if r.Bool() {
 			ox, oy = oy, ox
@@ -457,6 +459,13 @@ func run(c *core.Ctx, idx int) {
 			key = "tiny-magnitude-operands"
 		case "huge_magnitude":
 			key = "huge-magnitude-operands"
+		case "far_from_origin":
+			// 1e8 and more sizes away the coordinates keep 8 digits or fewer of the shape; the
+			// clipper's results are then (rarely) wrong as a whole - a recorded finding; below 1e8
+			// the phase is an ordinary one
+			if farRatio >= 1e8 {
+				key = "figures-1e8-and-more-sizes-from-the-origin"
+			}
 		}
 		c.Violate(key, what, detail)
 	}
